@@ -659,7 +659,8 @@ def run(ctx):
                 ctx.count(f"{cname}:query-unstable")
         ctx.count(f"{cname}:queries", len(usable))
         # ---- pairs ------------------------------------------------------------------------
-        for oname, mut in spec["mutators"].items():
+        pair_rounds = [(o, m) for _ in range(1 if quick else 6) for o, m in spec["mutators"].items()]
+        for oname, mut in pair_rounds:
             obj = quiet(spec["make"], rng)
             before = {}
             infos = {}
@@ -739,7 +740,7 @@ def run(ctx):
                 hist_impl.append("H" if ci1.hits > ci0.hits else "M")
                 hist_meta.append((cname, m, oname, allow_hit))
         # ---- random histories ---------------------------------------------------------------
-        nh = (6 if quick else 60)
+        nh = (6 if quick else 120)
         for h in range(nh):
             obj = quiet(spec["make"], rng)
             trace = []
